@@ -155,7 +155,8 @@ type tEntry struct {
 	Size   int
 }
 
-var nameAlphabet = []string{"a", "b", "data", "x y", "dots..", ".hidden", "ünï", "日本", "with-dash", "UPPER", "n1", "n2", "n3", "tmp.txt", "lib.so.1"}
+var nameAlphabet = []string{"a", "b", "data", "x y", "dots..", ".hidden", "ünï", "日本", "with-dash", "UPPER", "n1", "n2", "n3", "tmp.txt", "lib.so.1",
+	"caf\xe9", "\xff\xfebom", "bad\x80\x81utf"} // the last three are not UTF-8: a file name is any bytes but '/' and NUL
 
 func genName(r *Rand, i int) string {
 	switch r.Intn(12) {
